@@ -41,10 +41,15 @@ func c06Sessions(prefix string) []c06Session {
 		{Name: "urn:custom:a", FriendlyName: "ca", NameFormat: "urn:oasis:names:tc:SAML:2.0:attrname-format:uri", Values: []saml.AttributeValue{{Type: "xs:string", Value: prefix + "-custom-1"}, {Type: "xs:string", Value: prefix + "-custom-2"}}},
 		{Name: "urn:custom:b", Values: []saml.AttributeValue{{Type: "xs:string", Value: prefix + "-custom-3"}}},
 	}
+	// a session about to end, and one that carries no end at all: when the session ends says nothing about how long the bearer may take
+	soon := all
+	soon.ExpireTime = samlgen.T0.Add(20 * time.Second)
+	open := grp
+	open.ExpireTime = time.Time{}
 	nf := all
 	nf.NameIDFormat = "urn:oasis:names:tc:SAML:1.1:nameid-format:emailAddress"
 	nf.NameID = prefix + "-mail@example.com"
-	return []c06Session{{"all-fields", all}, {"minimal", base}, {"groups", grp}, {"custom-attrs", cust}, {"nameid-format", nf}}
+	return []c06Session{{"all-fields", all}, {"minimal", base}, {"groups", grp}, {"custom-attrs", cust}, {"nameid-format", nf}, {"expires-in-20s", soon}, {"no-expiry+groups", open}}
 }
 
 // sessionStrings lists every string of a session that may legitimately appear as NameID / attribute value.
@@ -160,7 +165,9 @@ func runC06(c *core.Ctx) {
 	sessions := c06Sessions("S1")
 	decoys := c06Sessions("DECOY")
 	shapes := c06Shapes()
-	reqKinds := []string{"by-url", "by-index", "index-and-other-url", "neither", "idp-initiated", "by-url-of-non-post-endpoint", "by-index-of-non-post-endpoint"}
+	reqKinds := []string{"by-url", "by-index", "index-and-other-url", "neither", "idp-initiated", "by-url-of-non-post-endpoint", "by-index-of-non-post-endpoint",
+		// the request also states the binding it wants the answer over: that narrows nothing about which registered URL was named
+		"by-url-of-second-endpoint+ProtocolBinding", "by-unregistered-url+ProtocolBinding"}
 	idpConfs := []string{"key-rsa", "signer-rsa", "signer-ecdsa", "signer-rsa+stale-key"}
 	clocks := []time.Duration{0, 60 * time.Second, -30 * time.Second} // now - request IssueInstant
 	tols := []tol{{"default", 90 * time.Second, 180 * time.Second}, {"d30s-s5s", 30 * time.Second, 5 * time.Second}}
@@ -244,6 +251,13 @@ func runC06(c *core.Ctx) {
 				url = samlgen.S(locL3reg)
 			case "by-index-of-non-post-endpoint":
 				index = samlgen.S("3")
+			case "by-url-of-second-endpoint+ProtocolBinding":
+				url = samlgen.S(locL1)
+				if len(eps) >= 2 {
+					url = samlgen.S(locL2)
+				}
+			case "by-unregistered-url+ProtocolBinding":
+				url = samlgen.S("https://sp.example.com/saml/not-registered")
 			case "index-and-other-url":
 				index = samlgen.S("1")
 				if len(eps) >= 2 {
@@ -278,7 +292,11 @@ func runC06(c *core.Ctx) {
 			case 2:
 				issuedText = issued.In(time.FixedZone("", 2*3600)).Format("2006-01-02T15:04:05.000-07:00")
 			}
+			if strings.HasSuffix(reqKinds[pt[0]], "+ProtocolBinding") {
+				authnProtocolBinding = samlgen.S(saml.HTTPPostBinding)
+			}
 			plainDoc := authnRequestXML(samlgen.S(samlgen.SPEntity), samlgen.S(samlgen.IDPSSO), samlgen.S("2.0"), samlgen.S(issuedText), url, index, reqID)
+			authnProtocolBinding = nil
 			doc := plainDoc
 			if x := c06ReqExtras[pt[8]]; x.xml != "" && !idpInit {
 				// optional request content naming identities / formats: the emitted identity must not depend on it
